@@ -960,3 +960,16 @@ func c06CommentForms(res *Result) {
 		}
 	}
 }
+
+type anyKey struct{ X any }
+
+// c01OddKeys: keys that cannot be hashed, or do not fit the key type, are missing keys
+func c01OddKeys(res *Result) {
+	ctx := pongo2.Context{"m": map[any]int{anyKey{X: 1}: 5, "s": 6}, "bad": anyKey{X: []int{1}}, "good": anyKey{X: 1}, "fn": anyKey{X: func() {}},
+		"sl": []int{1}, "u8": map[uint8]string{200: "tw"}, "neg": -56, "big": uint64(1 << 63), "i64": map[int64]string{-1: "m"}, "um": map[uint64]int{1 << 63: 1}}
+	fixedRenders(res, "totality", "c01-odd-map-key", map[string]string{}, ctx, [][2]string{
+		{"{{ m[bad] }}|{{ m[good] }}|{{ m[fn] }}|{{ m[sl] }}|{{ m.s }}", "|5|||6"},
+		{"{{ bad in m }}|{{ good in m }}|{{ sl in m }}|{{ \"s\" in m }}", "False|True|False|True"},
+		{"{{ u8[neg] }}|{{ u8[200] }}|{{ u8[456] }}|{{ i64[big] }}|{{ um[big] }}|{{ i64[neg + 55] }}|{{ neg in u8 }}|{{ big in i64 }}", "|tw|||1|m|False|False"},
+	})
+}
